@@ -385,6 +385,10 @@ def run_case(case):
             if probs:
                 rec.hit("initial_values_outside_declared_range(info)", len(probs))
                 rec.extra["initial_out_of_range"] = [f"{p['path']}|{p['field']}={p['value']} declared [{p['min']},{p['max']}]" for p in probs[:4]]
+            rec.hit("declared_bound_checks")
+            for mm in aw.declared_bound_mismatches(subject.opts, flat):
+                rec.violate("bounds", "declared_bound_not_taken_over", f"{type(m).__name__}.{mm['argument']}",
+                            subject=case["subject"], **mm)
             un = aw.unmodelled_bounds(flat, fams)
             if un:
                 rec.hit("unmodelled_bound_arguments(info)", len(un))
